@@ -153,7 +153,12 @@ func corrC02(r *Run) {
 		case !bytes.Equal(w.calls[0], g.want):
 			r.Fail(g.cls, "octets differ from the SMPP v5 layout of this operation", in, hex.EncodeToString(w.calls[0]), hex.EncodeToString(g.want))
 		}
-		// and the other way round: the specification's frame decodes to the value (D5: the extra octet is ignored)
+		// and the other way round: the specification's frame decodes to the value (D5: the extra octet is ignored) —
+		// also right after a long frame whose decoding stops early (an error response with a body, section 3.2: the body may be ignored)
+		if len(g.want)%3 == 0 {
+			long := rawFrame(0x80000004, 0x58, 99, r.Rng.Bytes(5000))
+			_ = readOnce(&chunkReader{data: long, sched: []int{len(long)}})
+		}
 		o := readOnce(&chunkReader{data: g.want, sched: []int{len(g.want)}})
 		if o.Kind != "ok" {
 			r.Fail(g.cls+"/decode", "ReadPDU rejects a frame laid out from the specification", in, o.Kind, "decodes")
@@ -218,6 +223,14 @@ func corrC02(r *Run) {
 		_, err, w, panicked, _ := marshalRec(p)
 		if err != nil || panicked || len(w.calls) != 1 {
 			continue
+		}
+		if i%9 == 4 {
+			// a message_payload-sized value (section 4.8.4.36: up to 64 KiB): the TLV reader must not depend on its buffer size
+			big := uint16(0x0424)
+			if _, dup := tg[big]; !dup {
+				keys = append(keys, big)
+			}
+			tg[big] = r.Rng.Bytes(r.Rng.Pick([]int{4090, 4096, 4097, 5000, 20000, 60000}))
 		}
 		sb := &specBuf{b: append([]byte(nil), w.calls[0]...)}
 		for _, k := range permKeys16(r.Rng, keys) {
